@@ -28,7 +28,7 @@ def digitsNat (ds : Str) : Nat := digitsVal (ds.map charVal)
 
 /-- xs:boolean, §3.3.2: `'true' | 'false' | '1' | '0'` -/
 def boolLex : List (Str × Bool) :=
-  [("true".toList, true), ("false".toList, false), ("1".toList, true), ("0".toList, false)]
+  [(['t', 'r', 'u', 'e'], true), (['f', 'a', 'l', 's', 'e'], false), (['1'], true), (['0'], false)]
 
 def XsdBoolean (s : Str) (v : Bool) : Prop := (s, v) ∈ boolLex
 
@@ -61,7 +61,7 @@ inductive XsdHexBinary : Str → List Nat → Prop
 
 /-- the base64 alphabet, value → character (RFC 4648 table 1) -/
 def b64Alphabet : Str :=
-  "ABCDEFGHIJKLMNOPQRSTUVWXYZabcdefghijklmnopqrstuvwxyz0123456789+/".toList
+  ['A', 'B', 'C', 'D', 'E', 'F', 'G', 'H', 'I', 'J', 'K', 'L', 'M', 'N', 'O', 'P', 'Q', 'R', 'S', 'T', 'U', 'V', 'W', 'X', 'Y', 'Z', 'a', 'b', 'c', 'd', 'e', 'f', 'g', 'h', 'i', 'j', 'k', 'l', 'm', 'n', 'o', 'p', 'q', 'r', 's', 't', 'u', 'v', 'w', 'x', 'y', 'z', '0', '1', '2', '3', '4', '5', '6', '7', '8', '9', '+', '/']
 
 /-- character for a 6-bit value -/
 def b64AlphaChar (v : Nat) : Char := b64Alphabet.getD v 'A'
